@@ -102,9 +102,16 @@ func (r DIDKeyResolver) baseUrl(doc *did.Document) (baseUrl *string) {
 	for i := range context {
 		ctx := context[i]
 		if reflect.ValueOf(ctx).Kind() == reflect.Map {
-			m := ctx.(map[string]interface{})
+			m, isMap := ctx.(map[string]interface{})
+			if !isMap {
+				continue
+			}
 			if val, ok := m["@base"]; ok {
-				valStr := val.(string)
+				valStr, isString := val.(string)
+				if !isString {
+					// not a valid base URL, ignore
+					continue
+				}
 				baseUrl = &valStr
 				break
 			}
